@@ -124,22 +124,24 @@ def v6Loop : Nat → BS → List UInt8 → Option Nat → Option (List UInt8 × 
                 else v6Loop slots rest2 ip (some ip.length)
               else v6Loop slots rest1 ip ell
 
+/-- the tail of parseIPv6: run the loop, then "must have used entire string", expand the ellipsis -/
+def parseIPv6Go (s : BS) (ell : Option Nat) : Option (List UInt8) :=
+  match v6Loop 8 s [] ell with
+  | none => none
+  | some (ip, ell, rest) =>
+    if !rest.isEmpty then none                            -- trailing garbage
+    else if ip.length < 16 then
+      match ell with
+      | none => none                                      -- address string too short
+      | some e => some (ip.take e ++ List.replicate (16 - ip.length) 0 ++ ip.drop e)
+    else if ell.isSome then none                          -- :: must expand to at least one field
+    else some ip
+
 /-- parseIPv6 on a string without zone. -/
 def parseIPv6 (s0 : BS) : Option (List UInt8) :=
-  let go (s : BS) (ell : Option Nat) : Option (List UInt8) :=
-    match v6Loop 8 s [] ell with
-    | none => none
-    | some (ip, ell, rest) =>
-      if !rest.isEmpty then none                            -- trailing garbage
-      else if ip.length < 16 then
-        match ell with
-        | none => none                                      -- address string too short
-        | some e => some (ip.take e ++ List.replicate (16 - ip.length) 0 ++ ip.drop e)
-      else if ell.isSome then none                          -- :: must expand to at least one field
-      else some ip
   match s0 with
-  | 0x3A :: 0x3A :: r => if r.isEmpty then some (List.replicate 16 0) else go r (some 0)
-  | _ => go s0 none
+  | 0x3A :: 0x3A :: r => if r.isEmpty then some (List.replicate 16 0) else parseIPv6Go r (some 0)
+  | _ => parseIPv6Go s0 none
 
 def v4Prefix : List UInt8 := [0, 0, 0, 0, 0, 0, 0, 0, 0, 0, 0xff, 0xff]
 
